@@ -277,7 +277,7 @@ fn guarded(case: &LogCase) -> Result<LogStats, String> {
 
 pub fn worker(ctx: &WorkerCtx) -> WorkerResult {
     let (cases, fam_share) = match ctx.tier {
-        Tier::Quick => (30_000u64, 4usize),
+        Tier::Quick => (100_000u64, 2usize),
         Tier::Thorough => (400_000u64, 1usize),
     };
     let cases = std::env::var("VERIF_CASES").ok().and_then(|s| s.parse().ok()).unwrap_or(cases);
